@@ -92,8 +92,13 @@ CLAIMS = {
     'C09': dict(
         text="World.atMode models what user code sees under a mode (a predicate call builds an expression in symbolic mode); "
              "c09_an_ambient_irrelevant / c09_the_ambient_irrelevant: both entry points compute with the mode off, so the result "
-             "under any ambient mode equals the L1 semantics; c09_symbolic_predicates_would_differ shows why. Correspondence: "
-             "each query under ambient none/query/rule x an/the x caching, against the oracle.",
+             "under any ambient mode equals the L1 semantics; c09_symbolic_predicates_would_differ shows why. World.atEnv adds the "
+             "stack of open expression contexts to what user code sees; c09_an_env_irrelevant / c09_the_env_irrelevant: the guard "
+             "of both entry points hides mode AND contexts (repair R33), so the result under any ambient mode with any number of "
+             "contexts open equals the L1 semantics. Correspondence: each query under ambient none / query / rule / block opened "
+             "WITH the query as context (symbolic_mode(q), rule_mode(q)) / iterator started outside and continued inside a block, "
+             "x an/the x caching, against the oracle; predicate bodies that run nested evaluations, open their own blocks and "
+             "build queries of their own.",
         note=BASE_NOTE + "The theorem is about the transliterated entry points (duringAdvance/duringThe); that the mode is read "
              "only by hybrid_new / predicate.wrapper is an assumption checked by the correspondence, not proved.",
         tech="Lean 4 proof (frame lemma over the evaluator entry points) + differential correspondence across ambient modes"),
